@@ -397,6 +397,8 @@ structure ICall where
   arg : String
   dim : Option Nat
   cond : Nat          -- index of the `Conditional` it occurs in
+  bound : String := ""    -- the other operand of the `<` / `>` comparison the call occurs in (lower case)
+  left : Bool := true     -- the call is the left operand
 deriving DecidableEq, Repr
 
 structure UArg where
@@ -424,6 +426,30 @@ def condOfDim (calls : List ICall) (a : UArg) (d : Nat) : Option Nat :=
 def uboundRemoved (args : List UArg) (calls : List ICall) : List Nat :=
   ((args.filter fun a => a.assumed && allDims calls a).flatMap fun a =>
     (List.range a.rank).filterMap fun d => condOfDim calls a (d + 1)).eraseDups
+
+/-- the comparison `fix_subroutine` takes the new extent of dimension `d` from: the first comparison of the chosen
+`Conditional` that mentions the argument *and* the literal `d` (`arg.name in c and IntLiteral(d) in c`) -/
+def compOfDim (calls : List ICall) (a : UArg) (d : Nat) : Option ICall :=
+  match condOfDim calls a d with
+  | none => none
+  | some ci => calls.find? fun c => c.cond == ci && c.arg == a.name && c.dim == some d
+
+/-- `str(call)` in lower case -/
+def ICall.text (c : ICall) : String :=
+  c.fn ++ "(" ++ c.arg ++ ", " ++ (match c.dim with | some d => toString d | none => "?") ++ ")"
+
+/-- `new_shape += cond.right if 'ubound' in cond.left else cond.left` -/
+def ICall.extent (c : ICall) : String :=
+  if c.left then (if c.fn == "ubound" then c.bound else c.text) else c.bound
+
+/-- the new declared shape of a reported argument (`?` where no comparison is found: the real code raises) -/
+def uboundShape (calls : List ICall) (a : UArg) : List String :=
+  (List.range a.rank).map fun d => match compOfDim calls a (d + 1) with
+    | some c => c.extent
+    | none => "?"
+
+def uboundShapes (args : List UArg) (calls : List ICall) : List (String × List String) :=
+  (args.filter fun a => a.assumed && allDims calls a).map fun a => (a.name, uboundShape calls a)
 
 /-! ## R.7 the text written by the running fixer (modulo layout) -/
 
